@@ -391,7 +391,8 @@ func modelBaseOn(gi *GroupInfo) kyber.Point {
 
 const c18Rule = "(programs) straight-line programs of 1..40 steps over 4 scalar and 4 point registers from {scalar set (edge-biased value), add, sub, mul, neg, inv; point base, null, s*B (implicit base), s*P, add, sub, neg, double, transport through bytes from one implementation to all others} executed in lock step on every implementation of a family — Ed25519: constant-time, AllowVarTime, projective, extended + the math/big Edwards model; P-256, BN256-G1, BN254-G1: implementation + Weierstrass model; BLS12-381 G1: Kilic, CIRCL, gnark + model; BLS12-381 G2 and GT: the three back-ends — all scalar values and point encodings must coincide after every step. " +
 	"(bls) generated scalars and messages: a*B1, b*B2, pairings, hash-to-curve, BLS signatures on both groups, GT arithmetic byte-identical across Kilic/CIRCL/gnark, and signatures cross-verify. (keys) every 32-byte seed: all six Ed25519 instances derive crypto/ed25519's public key. (variants) a seeded deterministic transcript is produced by the default, generic (pure Go field arithmetic) and constantTime builds and compared line by line by the driver. " +
-	"non-trivial = a program with a scalar multiplication or an edge scalar that ran on >= 2 implementations/models; distinct = distinct program text"
+	"non-trivial = a program with a scalar multiplication or an edge scalar that ran on >= 2 implementations/models; distinct = distinct program text" +
+	" Added after the sensitivity rounds: receivers flagged AllowVarTime where applicable and, one step in three, the object in the destination register (in place); phostile step (structured hostile encodings decoded on every implementation, re-encodings compared); mod.Int register programs in the cross-build transcript."
 
 func TestC18_Programs(t *testing.T) {
 	ev := evFor("C18")
